@@ -1,5 +1,6 @@
 //! vh — the verification harness for sbstp/attohttpc. `vh <ID> <quick|thorough>` or
 //! `vh <ID> --replay <file>`. Exit 0: held on everything explored; 1: violation; 2: machinery error.
+#![allow(dead_code)]
 mod common;
 mod e1;
 mod refs;
